@@ -5,6 +5,7 @@ import SV.Immunity.Proofs
 import SV.GenProofs.Immunity
 import SV.Immunity.CacheProofs
 import SV.GenProofs.Config
+import SV.Immunity.FifoSpec
 namespace SV.Props.C13
 open SV SV.Immunity
 
@@ -79,5 +80,36 @@ theorem holds_for_every_accepted_configuration (cfg : Config) (nameLen : Nat) (h
     CacheInv (ops.foldl Cache.apply (Cache.init cfg)) ∧ (ops.foldl Cache.apply (Cache.init cfg)).count ≤ cfg.maxNumItems :=
   have hb := GenProofs.immunityAccepted_bounds cfg nameLen hacc
   ⟨CacheInv.run cfg hb.2.1 ops hw, count_le_max_run cfg hb.2.1 ops hw⟩
+
+/-! ### one chunk IS a FIFO queue with batch eviction: history-level refinement to an independent reference (SV.Immunity.FifoSpec:
+    a queue of (key, payload, size) oldest first + a set of immune keys, no per-item flags) -/
+
+theorem single_chunk_refines_fifo_queue (cfg : ChunkCfg) (ops : List COp)
+    (hw : ∀ op ∈ ops, (match op with | .add _ _ s => 0 ≤ s | _ => True)) :
+    let c := ops.foldl (Chunk.apply cfg) Chunk.empty
+    let q := Q.run cfg Q.empty ops
+    c.toQ = q ∧
+    c.items.map (·.key) = q.queue.map (·.1) ∧
+    c.items.map (·.payload) = q.queue.map (·.2.1) ∧
+    c.items.map (·.size) = q.queue.map (·.2.2) ∧
+    c.numBytes = q.bytes ∧
+    c.immuneKeys = q.immune ∧
+    Chunk.trace cfg Chunk.empty ops = Q.trace cfg Q.empty ops := chunk_run_refines_queue cfg ops hw
+/-- the reference refuses an add exactly when the key is new, the queue is full and nothing is evictable (every resident immune,
+    or batch size 0); a refused add changes nothing -/
+theorem fifo_refusal_iff (cfg : ChunkCfg) (q : Q) (k p : Bytes) (size : Int) :
+    ((q.add cfg k p size).2 = (false, false) ↔
+      (q.has k = false ∧ q.full cfg = true ∧
+        (cfg.numToEvict = 0 ∨ ∀ e ∈ q.queue, q.immune.contains e.1 = true))) ∧
+    ((q.add cfg k p size).2 = (false, false) → (q.add cfg k p size).1 = q) := q_refusal_iff cfg q k p size
+/-- victims are the oldest non-immune entries, in whole batches except possibly the last; eviction stops once the queue is not
+    full any more or a batch came out short -/
+theorem fifo_eviction_in_batches (cfg : ChunkCfg) {q q' : Q} (h : q.Wf) (he : q.evict cfg = some q') :
+    1 ≤ cfg.numToEvict ∧ q.evictable ≠ [] ∧
+    ∃ j, 1 ≤ j ∧ q' = q.without (q.evictable.take (j * cfg.numToEvict)) ∧
+      (∀ i, 1 ≤ i → i < j → i * cfg.numToEvict ≤ q.evictable.length ∧
+        (q.without (q.evictable.take (i * cfg.numToEvict))).full cfg = true) ∧
+      (j * cfg.numToEvict ≤ q.evictable.length → q'.full cfg = false) ∧
+      q'.count + min (j * cfg.numToEvict) q.evictable.length = q.count := q_batches cfg h he
 
 end SV.Props.C13
